@@ -166,7 +166,8 @@ func continuation(cl *qsim.Cluster, variant int, budget int) (bool, specqbft.Rou
 				// overdue timeouts: deadlines are absolute, so a lagging operator fires until it reaches the top round
 				for n.Inst().Round < top && !n.Inst().Decided {
 					r := n.Inst().Round
-					if err := cl.FireTimeoutFor(n, cl.Cfg.Height, r); err != nil {
+					// the event carries the (height, round) the operator's timer was last armed for, as the real timer's does
+					if err := cl.FireTimeout(n); err != nil {
 						log = append(log, fmt.Sprintf("timeout n%d r%d err=%v", n.ID, r, err))
 						break
 					}
@@ -182,7 +183,7 @@ func continuation(cl *qsim.Cluster, variant int, budget int) (bool, specqbft.Rou
 		}
 		// lock-step: everybody undecided times out of the top round
 		for _, n := range und {
-			_ = cl.FireTimeoutFor(n, cl.Cfg.Height, n.Inst().Round)
+			_ = cl.FireTimeout(n)
 		}
 		log = append(log, fmt.Sprintf("round %d timed out at %d undecided operators", top, len(und)))
 	}
@@ -335,8 +336,13 @@ func runTimeout(c *evid.Case) {
 			}
 			arms := nd.Arms
 			outBefore := len(nd.AllOut)
-			err := cl.FireTimeoutFor(nd, cfg.Height, r)
+			// the expiring timer reports the (height, round) it was armed for (roundtimer.waitForRound -> Validator.onTimeout)
+			armedH, armedR := nd.ArmedH, nd.ArmedR
+			err := cl.FireTimeout(nd)
 			c.Count("timeouts_checked", 1)
+			if armedH != cfg.Height || armedR != r {
+				c.Count("timer_armed_for_other_round_at_cut", 1)
+			}
 			c.Nontrivial(evid.Hash("timeout", cfg.N, r, st.LastPreparedRound != 0, step == 0))
 			c.Distinct("timeout_rounds", evid.Hash(r))
 			st2 := nd.Inst()
@@ -345,6 +351,10 @@ func runTimeout(c *evid.Case) {
 					map[string]any{"config": cfg, "prefix_actions": tail(cl.Acts, 60)})
 			}
 			if st2.Round != r+1 {
+				if armedH != cfg.Height || armedR != r {
+					fail("timer armed for a round other than the operator's current one, its expiry is ignored")
+					break
+				}
 				fail(fmt.Sprintf("round is %d after the timeout of round %d", st2.Round, r))
 				break
 			}
